@@ -74,6 +74,20 @@ bool SceneGen::pointFree(Pt p, double margin) {
     return true;
 }
 Pt SceneGen::freePoint() {
+    if (edgePoints > 0 && r.chance(edgePoints)) {
+        // an end point exactly on a side of a (rectangular) shape, away from its corners and clear of every other shape
+        std::vector<int> ids; for (auto &kv : shapes) if (kv.second.alive && kv.second.rect) ids.push_back(kv.first);
+        for (int t = 0; t < 20 && !ids.empty(); t++) {
+            const RectB &o = shapes[r.pick(ids)].box;
+            int side = (int)r.below(4);
+            Pt p;
+            if (side < 2) { p.x = side == 0 ? o.x : o.x + o.w; p.y = o.y + 5 * (double)r.range(1, std::max(1, (int)(o.h / 5) - 1)); }
+            else { p.y = side == 2 ? o.y : o.y + o.h; p.x = o.x + 5 * (double)r.range(1, std::max(1, (int)(o.w / 5) - 1)); }
+            bool ok = true;
+            for (auto &kv : shapes) if (kv.second.alive && &kv.second.box != &o) { const RectB &q = kv.second.box; if (p.x >= q.x - 1 && p.x <= q.x + q.w + 1 && p.y >= q.y - 1 && p.y <= q.y + q.h + 1) ok = false; }
+            if (ok) return p;
+        }
+    }
     for (int t = 0; t < 200; t++) {
         Pt p{(double)r.below(106) * 5 - 15, (double)r.below(106) * 5 - 15};
         if (pointFree(p, endMargin)) return p;
@@ -225,7 +239,7 @@ Json genRouterSession(Rng &r, const RouterGenCfg &g) {
 
     SceneGen sg(r);
     sg.gap = g.gap; sg.endMargin = g.endMargin; sg.polygons = g.polygons; sg.touching = g.touching; sg.dirRestrict = g.dirRestrict; sg.checkpoints = g.checkpoints;
-    sg.pinHook = g.pinHook; sg.endHook = g.endHook; sg.allowDeleteAttached = g.allowDeleteAttached; sg.allowCover = g.allowCover;
+    sg.pinHook = g.pinHook; sg.endHook = g.endHook; sg.allowDeleteAttached = g.allowDeleteAttached; sg.allowCover = g.allowCover; sg.edgePoints = g.edgePoints;
     Json ops = Json::arr();
     int ns = r.range(g.minShapes, g.maxShapes), nc = r.range(g.minConns, g.maxConns);
     for (int i = 0; i < ns; i++) sg.addShape(ops);
